@@ -9,8 +9,12 @@ Export == Len(hist) >= 10 => PrintT(ToJson([ops |-> hist, heap |-> heap]))
 
 \* exhaustive short behaviours: create, derive or create again, then observe (every such
 \* behaviour of the model, not a sample)
-Short == Len(hist) <= 3
+Short == Len(hist) <= 4
 ExportShort == (Len(hist) = 3 /\ hist[1].op = "new" /\ hist[2].op \in {"new", "replace", "copy", "deepcopy", "pickle"}
                 /\ hist[3].op \in {"eq", "hash"} /\ hist[3].a # hist[3].b)
                => PrintT(ToJson([ops |-> hist, heap |-> heap]))
+\* ... and: two objects, one of them used, then observed (using an object must not change what it equals)
+ExportUsed == (Len(hist) = 4 /\ hist[1].op = "new" /\ hist[2].op \in {"new", "replace", "copy", "deepcopy", "pickle"}
+               /\ hist[3].op = "use" /\ hist[4].op \in {"eq", "hash"} /\ hist[4].a # hist[4].b)
+              => PrintT(ToJson([ops |-> hist, heap |-> heap]))
 =============================================================================
